@@ -186,56 +186,177 @@ Qed.
 
 Definition wf_rt (rt : list Z) : Prop := length rt = 8%nat /\ wfb rt.
 
+(* a legal RTC prefix length: the wildcard, or 32 (origin AS only) .. 96 bits *)
+Definition rtc_len_ok (len : Z) : Prop := len = 0 \/ 32 <= len <= 96.
+
+Lemma rtc_octets len : 32 <= len <= 96 -> 4 <= (len + 7) / 8 <= 12.
+Proof.
+  intro H. split; [apply Z.div_le_lower_bound; lia|].
+  assert ((len + 7) / 8 < 13) by (apply Z.div_lt_upper_bound; lia). lia.
+Qed.
+
+Lemma split12 (v : list Z) : length v = 12%nat -> firstn 4 v ++ nth 4 v 0 :: firstn 7 (skipn 5 v) = v.
+Proof. intro L. do 12 (destruct v as [|? v]; [discriminate|]). destruct v; [reflexivity|discriminate]. Qed.
+
+Lemma nth_firstn_lt (l : list Z) : forall n j, (n < j)%nat -> nth n (firstn j l) 0 = nth n l 0.
+Proof.
+  induction l as [|x l IH]; intros n j H; [destruct j; reflexivity|].
+  destruct j as [|j]; [lia|]. destruct n as [|n]; [reflexivity|]. cbn [firstn nth]. apply IH. lia.
+Qed.
+
+Lemma repeat_wfb n : wfb (repeat 0 n).
+Proof. induction n; cbn [repeat]; constructor; [unfold byte; lia|assumption]. Qed.
+
+(* the stored 13-octet form of a (non wildcard) RTC NLRI: length octet, then the prefix zero padded, flags reset *)
+Record wf_rtc (p : list Z) : Prop := mkWfRtc {
+  wr_len : length p = 13%nat;
+  wr_bits : 32 <= nth 0 p 0 <= 96;
+  wr_pad : skipn (Z.to_nat (rtc_size (nth 0 p 0))) p = repeat 0 (Z.to_nat (13 - rtc_size (nth 0 p 0)));
+  wr_flags : 0 <= nth 5 p 0 < 64
+}.
+
+(* decode (encode p ++ rest) = (p, rest) for every legal prefix length: what goes on the wire is the length
+   octet and ceil(length / 8) octets, and reading them back rebuilds the stored form *)
+Theorem rtc_roundtrip_any_length : forall p rest,
+  wf_rtc p -> unpack_rtc (pack_rtc p ++ rest) = Some (p, rest).
+Proof.
+  intros p rest [L Hb Hpad Hf]. destruct p as [|len q]; [discriminate|].
+  cbn [nth] in Hb, Hpad. assert (Lq : length q = 12%nat) by (cbn [length] in L; lia).
+  pose proof (rtc_octets len Hb) as Hk. set (k := (len + 7) / 8) in *.
+  assert (Sz : rtc_size len = 1 + k) by reflexivity.
+  unfold pack_rtc. cbn [nth]. rewrite Sz in *.
+  assert (N1 : Z.to_nat (1 + k) = S (Z.to_nat k)) by lia. rewrite N1 in *. cbn [firstn skipn app] in *.
+  unfold unpack_rtc.
+  assert (E0 : (len =? 0) = false) by (apply Z.eqb_neq; lia). rewrite E0.
+  assert (E1 : (len <? 32) || (96 <? len) = false).
+  { apply orb_false_iff. split; [apply Z.ltb_ge|apply Z.ltb_ge]; lia. }
+  rewrite E1, Sz.
+  assert (Lf : length (firstn (Z.to_nat k) q) = Z.to_nat k) by (apply firstn_length_le; lia).
+  assert (E2 : (zlen (len :: firstn (Z.to_nat k) q ++ rest) <? 1 + k) = false).
+  { apply Z.ltb_ge. rewrite zlen_cons, zlen_app. unfold zlen at 1. rewrite Lf. pose proof (zlen_nonneg rest). lia. }
+  rewrite E2. replace (1 + k - 1) with k by lia. rewrite N1. cbn [skipn].
+  rewrite (firstn_app_exact (firstn (Z.to_nat k) q) rest (Z.to_nat k)) by (symmetry; exact Lf).
+  rewrite (skipn_app_exact (firstn (Z.to_nat k) q) rest (Z.to_nat k)) by (symmetry; exact Lf).
+  assert (V : firstn (Z.to_nat k) q ++ repeat 0 (Z.to_nat (13 - (1 + k))) = q).
+  { rewrite <- Hpad. apply firstn_skipn. }
+  rewrite V. cbn [nth] in Hf.
+  assert (R : reset_flags (nth 4 q 0) = nth 4 q 0) by (unfold reset_flags; apply Z.mod_small; exact Hf).
+  rewrite R, split12 by exact Lq. reflexivity.
+Qed.
+
+(* the wildcard *)
+Theorem rtc_wildcard_roundtrip : forall origin rest,
+  unpack_rtc (pack_rtc (make_rtc origin None) ++ rest) = Some (make_rtc origin None, rest).
+Proof. reflexivity. Qed.
+
+Lemma make_rtc_wf origin rt : 0 <= origin < 4294967296 -> wf_rt rt ->
+  wf_rtc (make_rtc origin (Some rt)) /\ pack_rtc (make_rtc origin (Some rt)) = make_rtc origin (Some rt).
+Proof.
+  intros Ho [Hl Hb].
+  destruct rt as [|r0 [|r1 [|r2 [|r3 [|r4 [|r5 [|r6 [|r7 [|? ?]]]]]]]]]; try discriminate.
+  split; [|reflexivity].
+  constructor; cbn [make_rtc nth be32 app]; try reflexivity; try lia.
+  unfold reset_flags. apply Z.mod_pos_bound. lia.
+Qed.
+
+(* the factory-built full-length object: round trip and accessors *)
 Theorem rtc_roundtrip : forall origin rt rest,
   0 <= origin < 4294967296 -> wf_rt rt ->
-  unpack_rtc (make_rtc origin (Some rt) ++ rest) = Some (make_rtc origin (Some rt), rest)
+  unpack_rtc (pack_rtc (make_rtc origin (Some rt)) ++ rest) = Some (make_rtc origin (Some rt), rest)
   /\ rtc_origin (make_rtc origin (Some rt)) = origin
   /\ rtc_rt (make_rtc origin (Some rt)) = Some (reset_flags (hd 0 rt) :: tl rt).
 Proof.
-  intros origin rt rest Ho [Hl Hb].
+  intros origin rt rest Ho Hrt. destruct (make_rtc_wf origin rt Ho Hrt) as [W _].
+  split; [apply rtc_roundtrip_any_length; exact W|].
+  destruct Hrt as [Hl Hb].
   destruct rt as [|r0 [|r1 [|r2 [|r3 [|r4 [|r5 [|r6 [|r7 [|? ?]]]]]]]]]; try discriminate.
-  inversion Hb as [|? ? H0 _]; subst. unfold byte in H0.
-  assert (Hm : reset_flags (reset_flags r0) = reset_flags r0).
-  { unfold reset_flags. apply Z.mod_mod. lia. }
-  unfold make_rtc. split; [|split].
-  - unfold unpack_rtc. cbn [app Z.eqb orb Z.ltb Z.compare Pos.compare Pos.compare_cont].
-    cbn [length Nat.ltb Nat.leb Nat.add]. cbn [be32 app firstn skipn nth]. rewrite Hm. reflexivity.
-  - unfold rtc_origin. cbn [length app be32 Nat.ltb Nat.leb skipn].
-    change ([(origin / 16777216) mod 256; (origin / 65536) mod 256; (origin / 256) mod 256; origin mod 256; reset_flags r0; r1; r2; r3; r4; r5; r6; r7])
-      with (be32 origin ++ [reset_flags r0; r1; r2; r3; r4; r5; r6; r7]).
-    apply rd32_be32. exact Ho.
-  - reflexivity.
+  split; [|reflexivity].
+  unfold rtc_origin, make_rtc. cbn [length app be32 Nat.ltb Nat.leb skipn].
+  change ([(origin / 16777216) mod 256; (origin / 65536) mod 256; (origin / 256) mod 256; origin mod 256; reset_flags r0; r1; r2; r3; r4; r5; r6; r7])
+    with (be32 origin ++ [reset_flags r0; r1; r2; r3; r4; r5; r6; r7]).
+  apply rd32_be32. exact Ho.
 Qed.
 
-Theorem rtc_wildcard_roundtrip : forall origin rest,
-  unpack_rtc (make_rtc origin None ++ rest) = Some (make_rtc origin None, rest).
-Proof. reflexivity. Qed.
-
-(* what the decoder stores, followed by what it leaves, is the input whenever the two flag bits of the
-   route target type octet are already clear (always true of what ExaBGP writes) *)
+(* what the decoder accepts: the length is legal, it consumes exactly rtc_size(length) octets, the stored form
+   is well formed, and re-encoding gives back the consumed octets provided the two flag bits of the route target
+   type octet (octet 5, present when the prefix is longer than 32 bits) were clear.  Nothing is asked of the bits
+   beyond the prefix inside its last octet: they are stored and written back as received. *)
 Theorem rtc_canonical : forall data p rest,
   wfb data -> unpack_rtc data = Some (p, rest) ->
-  (nth 0 data 0 <> 0 -> nth 5 data 0 < 64) -> p ++ rest = data.
+  rtc_len_ok (nth 0 data 0)
+  /\ (exists consumed, data = consumed ++ rest /\ zlen consumed = rtc_size (nth 0 data 0)
+        /\ ((32 < nth 0 data 0 -> nth 5 data 0 < 64) -> pack_rtc p = consumed))
+  /\ (nth 0 data 0 <> 0 -> wf_rtc p).
 Proof.
-  intros data p rest Hb H Hflag. unfold unpack_rtc in H. destruct data as [|len data']; [discriminate|].
+  intros data p rest Hb H. unfold unpack_rtc in H. destruct data as [|len d]; [discriminate|]. cbn [nth].
   destruct (len =? 0) eqn:E0.
-  - assert (E : [len] = p /\ skipn 1 (len :: data') = rest) by (split; congruence). destruct E as [<- <-]. reflexivity.
-  - destruct ((len <? 32) || (96 <? len)); [discriminate|].
-    destruct (length (len :: data') <? 13)%nat eqn:L; [discriminate|]. apply Nat.ltb_ge in L.
-    assert (E : firstn 5 (len :: data') ++ reset_flags (nth 5 (len :: data') 0) :: firstn 7 (skipn 6 (len :: data')) = p
-                /\ skipn 13 (len :: data') = rest) by (split; congruence).
-    destruct E as [<- <-]. apply Z.eqb_neq in E0.
-    assert (F : nth 5 (len :: data') 0 < 64) by (apply Hflag; exact E0).
-    set (d := len :: data') in *.
-    assert (B5 : 0 <= nth 5 d 0).
-    { unfold wfb in Hb. rewrite Forall_forall in Hb. assert (I : In (nth 5 d 0) d) by (apply nth_In; lia). apply Hb in I. unfold byte in I. lia. }
-    unfold reset_flags. rewrite Z.mod_small by lia.
-    assert (S5 : skipn 5 d = nth 5 d 0 :: skipn 6 d).
-    { clear -L. do 6 (destruct d as [|? d]; [cbn [length] in L; lia|]). reflexivity. }
-    transitivity (firstn 5 d ++ skipn 5 d); [|apply firstn_skipn].
-    rewrite <- app_assoc. f_equal. rewrite S5. cbn [app]. f_equal.
-    replace (skipn 13 d) with (skipn 7 (skipn 6 d)) by (rewrite <- skipn_add; reflexivity).
-    apply firstn_skipn.
+  - apply Z.eqb_eq in E0. subst len.
+    assert (E : [0] = p /\ skipn 1 (0 :: d) = rest) by (split; congruence). destruct E as [<- <-].
+    split; [left; reflexivity|]. split; [|congruence].
+    exists [0]. split; [reflexivity|]. split; [reflexivity|]. intros _. reflexivity.
+  - apply Z.eqb_neq in E0.
+    destruct ((len <? 32) || (96 <? len)) eqn:E1; [discriminate|].
+    apply orb_false_iff in E1. destruct E1 as [A B]. apply Z.ltb_ge in A, B.
+    assert (Hl : 32 <= len <= 96) by lia. pose proof (rtc_octets len Hl) as Hk.
+    set (k := (len + 7) / 8) in *. assert (Sz : rtc_size len = 1 + k) by reflexivity. rewrite Sz in H.
+    destruct (zlen (len :: d) <? 1 + k) eqn:E2; [discriminate|]. apply Z.ltb_ge in E2. rewrite zlen_cons in E2.
+    replace (1 + k - 1) with k in H by lia.
+    assert (N1 : Z.to_nat (1 + k) = S (Z.to_nat k)) by lia. rewrite N1 in H.
+    change (skipn (S (Z.to_nat k)) (len :: d)) with (skipn (Z.to_nat k) d) in H.
+    set (value := firstn (Z.to_nat k) d ++ repeat 0 (Z.to_nat (13 - (1 + k)))) in *.
+    assert (E : len :: firstn 4 value ++ reset_flags (nth 4 value 0) :: firstn 7 (skipn 5 value) = p
+                /\ skipn (Z.to_nat k) d = rest) by (split; congruence).
+    destruct E as [<- <-]. clear H.
+    assert (Hbd : wfb d) by (inversion Hb; assumption).
+    assert (Lf : length (firstn (Z.to_nat k) d) = Z.to_nat k) by (apply firstn_length_le; unfold zlen in E2; lia).
+    assert (Lv : length value = 12%nat).
+    { unfold value. rewrite app_length, Lf, repeat_length. lia. }
+    assert (Bv : wfb value) by (unfold value; apply wfb_app; split; [apply wfb_firstn; exact Hbd|apply repeat_wfb]).
+    assert (B4 : 0 <= nth 4 value 0 < 256).
+    { unfold wfb in Bv. rewrite Forall_forall in Bv. apply Bv. apply nth_In. lia. }
+    set (stored := firstn 4 value ++ reset_flags (nth 4 value 0) :: firstn 7 (skipn 5 value)).
+    assert (Ls : length stored = 12%nat).
+    { unfold stored. clear -Lv. do 12 (destruct value as [|? value]; [discriminate|]). destruct value; [reflexivity|discriminate]. }
+    assert (Fk : forall j, (5 <= j)%nat -> firstn j stored = firstn 4 value ++ reset_flags (nth 4 value 0) :: firstn (j - 5) (firstn 7 (skipn 5 value))).
+    { intros j Hj. unfold stored. clear -Lv Hj.
+      do 12 (destruct value as [|? value]; [discriminate|]).
+      do 5 (destruct j as [|j]; [lia|]). cbn [firstn app skipn nth]. replace (S (S (S (S (S j)))) - 5)%nat with j by lia. reflexivity. }
+    split; [right; exact Hl|]. split.
+    + exists (len :: firstn (Z.to_nat k) d). split; [cbn [app]; f_equal; symmetry; apply firstn_skipn|].
+      split; [rewrite zlen_cons; unfold zlen; rewrite Lf; lia|].
+      intro Hflag. unfold pack_rtc. cbn [nth]. rewrite Sz, N1. cbn [firstn]. f_equal.
+      fold stored.
+      assert (R : 32 < len -> reset_flags (nth 4 value 0) = nth 4 value 0).
+      { intro Hgt. unfold reset_flags. apply Z.mod_small.
+        assert (K5 : (5 <= Z.to_nat k)%nat).
+        { assert (5 <= k); [|lia]. unfold k. apply Z.div_le_lower_bound; lia. }
+        assert (Nv : nth 4 value 0 = nth 4 d 0).
+        { unfold value. rewrite app_nth1 by lia. apply nth_firstn_lt. lia. }
+        specialize (Hflag Hgt). cbn [nth] in Hflag. rewrite Nv. rewrite Nv in B4. lia. }
+      destruct (Z_lt_dec 32 len) as [Hgt|Hle].
+      * assert (Es : stored = value) by (unfold stored; rewrite (R Hgt); apply split12; exact Lv).
+        rewrite Es. unfold value. apply firstn_app_exact. symmetry. exact Lf.
+      * assert (len = 32) by lia. subst len. assert (Hk4 : Z.to_nat k = 4%nat) by reflexivity.
+        rewrite Hk4. unfold stored. rewrite firstn_app_exact by (symmetry; apply firstn_length_le; lia).
+        unfold value. rewrite Hk4 in *. rewrite (firstn_app_exact (firstn 4 d)) by (symmetry; exact Lf). reflexivity.
+    + intros _. constructor; cbn [nth length].
+      * fold stored. rewrite Ls. reflexivity.
+      * exact Hl.
+      * rewrite Sz, N1. cbn [skipn]. fold stored.
+        (* beyond the prefix the stored form is the zero padding *)
+        assert (Hz : Z.to_nat k = 4%nat -> nth 4 value 0 = 0).
+        { intro K4. unfold value. rewrite app_nth2 by lia. rewrite Lf, K4. 
+          replace (Z.to_nat (13 - (1 + k))) with 8%nat by lia. reflexivity. }
+        assert (P : skipn (Z.to_nat k) stored = skipn (Z.to_nat k) value).
+        { unfold stored. clear -Lv Hk Hz. set (j := Z.to_nat k) in *. assert (Hj : (4 <= j <= 12)%nat) by lia. clearbody j.
+          do 12 (destruct value as [|? value]; [discriminate|]). destruct value; [|discriminate].
+          do 4 (destruct j as [|j]; [lia|]). destruct j as [|j]; [|reflexivity].
+          cbn [firstn skipn app nth] in *. rewrite (Hz eq_refl). reflexivity. }
+        rewrite P. unfold value. rewrite skipn_app_exact by (symmetry; exact Lf). reflexivity.
+      * fold stored. unfold stored. 
+        assert (N5 : nth 4 (firstn 4 value ++ reset_flags (nth 4 value 0) :: firstn 7 (skipn 5 value)) 0 = reset_flags (nth 4 value 0)).
+        { clear -Lv. do 12 (destruct value as [|? value]; [discriminate|]). reflexivity. }
+        rewrite N5. unfold reset_flags. apply Z.mod_pos_bound. lia.
 Qed.
 
 Theorem make_rtc_injective : forall o1 o2 rt1 rt2,
